@@ -10,7 +10,7 @@ one() {
   (cd $S/repo && git apply --3way --whitespace=nowarn $m >/dev/null 2>&1) || { echo "$(basename $m .patch) APPLY-FAIL"; rm -rf $S; return; }
   (cd $S/repo && go build ./... >/dev/null 2>&1) || { echo "$(basename $m .patch) BUILD-FAIL"; rm -rf $S; return; }
   fired=""; detail=""
-  for p in $(${GPC:-$V/bin/goparcheck} -list); do
+  for p in ${ONLYPROPS:-$(${GPC:-$V/bin/goparcheck} -list)}; do
     out=$(${GPC:-$V/bin/goparcheck} -property $p -repo $S/repo -verif $V -evidence-dir $S/ev 2>&1); rc=$?
     if [ $rc -ne 0 ]; then fired="$fired $p"; detail="$detail$(echo "$out" | grep -E "^(violated|UNDEC)" | head -3 | cut -c1-260 | sed "s/^/    [$p] /")
 "; fi
@@ -18,6 +18,6 @@ one() {
   echo "$(basename $m .patch): fired=[${fired# }]"; [ -n "$fired" ] && printf "%s" "$detail"
   rm -rf $S
 }
-export -f one; export V GPC
+export -f one; export V GPC ONLYPROPS
 if [ $# -eq 0 ]; then set -- benign/*.patch; fi
 for a in "$@"; do readlink -f $a; done | xargs -P 10 -I{} bash -c 'one {}' | cat
